@@ -134,7 +134,10 @@ class Process:
         This method restores the process state by its string representation.
         """
         data = json.loads(state_encoded)
-        for name in self.__dict__:
-            self.__dict__[name] = None
+        # attributes created after the state was taken are dropped (not kept as None),
+        # so that get_state() after set_state(s) returns s again
+        for name in list(self.__dict__):
+            if name not in data:
+                del self.__dict__[name]
         for name, member in data.items():
             self.__dict__[name] = pickle.loads(bytes.fromhex(member))
